@@ -48,7 +48,8 @@ type SMSMsg struct {
 // World is the complete mutable state outside the library.
 type World struct {
 	Now      time.Time
-	RNG      uint64 // cursor of the deterministic crypto/rand stream
+	RNG      uint64          // cursor of the deterministic crypto/rand stream
+	RNGs     map[int]*uint64 // per logical thread cursors (schedule engine only; never cloned)
 	DB       *DB
 	Browsers map[string]*Browser
 
@@ -139,6 +140,7 @@ func (j jarRW) ReadState(r *http.Request) (authboss.ClientState, error) {
 	if err := j.S.point(j.name() + ".ReadState"); err != nil {
 		return nil, err
 	}
+	defer j.S.guard()()
 	b := j.S.W.Browsers[r.Header.Get("X-Browser")]
 	snap := snapshot{}
 	if b != nil {
@@ -154,6 +156,7 @@ func (j jarRW) WriteState(w http.ResponseWriter, _ authboss.ClientState, evs []a
 	if err := j.S.point(j.name() + ".WriteState"); err != nil {
 		return err
 	}
+	defer j.S.guard()()
 	name := w.Header().Get("X-Browser-Echo")
 	b := j.S.W.Browsers[name]
 	if b == nil {
@@ -180,7 +183,9 @@ func (j jarRW) WriteState(w http.ResponseWriter, _ authboss.ClientState, evs []a
 			}
 		}
 	}
-	j.S.stateWrites++
+	if !j.S.Conc {
+		j.S.stateWrites++
+	}
 	return nil
 }
 
